@@ -22,6 +22,7 @@ class ClassDecl:
         self.bases = list(bases)
         self.fields = dict(fields)
         self.abstract = abstract
+        self.tuple_fields = []
         self.views = dict(views)     # ghost (interface) field name -> concrete field of this class holding it     # ghost field name -> spec function name computing it from concrete fields
 
 
@@ -59,8 +60,9 @@ class Registry:
 REG = Registry()
 
 
-def classdef(qualname, bases=(), fields=None, abstract=False, views=None, sealed=False):
+def classdef(qualname, bases=(), fields=None, abstract=False, views=None, sealed=False, tuple_fields=None):
     d = ClassDecl(qualname, bases, fields or {}, abstract, views or {}, sealed)
+    d.tuple_fields = list(tuple_fields or [])      # a tuple kept in a list, modelled as an immutable object with these fields
     REG.classes[d.name] = d
     return d
 
